@@ -21,7 +21,10 @@ RULE = ("every PDAG(n) (per pair: none, ->, <-, --; cyclic directed layers inclu
         "families on all PDAG(n<=3), 120 shaped PDAGs and 60 DAG round trips; 300 dense (p=0.7-0.9) 6-8 node PDAGs / DAG round trips; "
         "4 long PDAGs (90-110 nodes, recursion limit lowered to depth+60, HEAD is iterative; for these only raises-or-not, nodes, "
         "acyclicity, skeleton and kept directed edges are checked — the v-structure check is cubic); edge attributes incl. weight "
-        "0/None/nan. Oracle (all orientations of the undirected edges) when |U|<=12. "
+        "0/None/nan and non-str attribute keys; 250 StationaryTimeSeriesCPDAG / StationaryTimeSeriesMixedEdgeGraph inputs (template + "
+        "homologous edges, abstract graph read off the built object; HEAD accepts them), plain MixedEdgeGraphs with the layers "
+        "created as (undirected, directed) or (directed, undirected) and a CPDAG whose directed layer was removed and re-added, on "
+        "all PDAG(n<=3) and 150 shaped PDAGs. Oracle (all orientations of the undirected edges) when |U|<=12. "
         "distinct by canonical graph; non-trivial = PDAG has an undirected and a directed edge")
 EXHAUSTIVE = {"quick": "all PDAG(n) n<=3; patterns and consequences of all DAG(n) n<=4",
               "thorough": "all 4096 PDAG(4) and smaller; patterns and consequences of all DAG(n) n<=5"}
@@ -68,6 +71,57 @@ def to_cpdag_mixed(g, case):
     for k, a, b in gr.ordered(case, es, "E"):
         P.add_edge(f(a), f(b), {"D": "directed", "U": "undirected"}[k])
     return P, f, (lambda x: table[x])
+
+
+def ts_cpdag(case):
+    """StationaryTimeSeriesCPDAG / StationaryTimeSeriesMixedEdgeGraph (layers in either order) from a template: add_edge adds the
+    homologous edges at every lag, the layers are time-series graph classes whose .copy() keeps that class"""
+    from pywhy_graphs.classes.timeseries import (StationaryTimeSeriesCPDAG, StationaryTimeSeriesDiGraph,
+                                                 StationaryTimeSeriesGraph, StationaryTimeSeriesMixedEdgeGraph)
+    t = case["ts"]
+    L = t["L"]
+    if case.get("cls") == "tsmixed":
+        gs = [StationaryTimeSeriesGraph(max_lag=L), StationaryTimeSeriesDiGraph(max_lag=L)]
+        P = StationaryTimeSeriesMixedEdgeGraph(graphs=gs, edge_types=["undirected", "directed"], max_lag=L)
+    elif case.get("cls") == "tsmixed_du":
+        gs = [StationaryTimeSeriesDiGraph(max_lag=L), StationaryTimeSeriesGraph(max_lag=L)]
+        P = StationaryTimeSeriesMixedEdgeGraph(graphs=gs, edge_types=["directed", "undirected"], max_lag=L)
+    else:
+        P = StationaryTimeSeriesCPDAG(max_lag=L)
+    P.add_variables_from(["v%d" % i for i in range(t["k"])])
+    es = [("directed", ("v%d" % x, -lag), ("v%d" % y, 0)) for x, lag, y in t["D"]]
+    es += [("undirected", ("v%d" % x, 0), ("v%d" % y, 0)) for x, y in t["U"]]
+    for name, a, b in gr.ordered(case, es, "E"):
+        P.add_edge(a, b, edge_type=name)
+    return P
+
+
+def mixed_pdag(g, case):
+    """a plain MixedEdgeGraph with exactly the two layers, created in the order the case says (edge_types is a list)"""
+    import networkx as nx
+    import pywhy_graphs.networkx as pywhy_nx
+    lab, inv = gr.labeler(case)
+    if case["cls"] == "mixed_ud":
+        M = pywhy_nx.MixedEdgeGraph(graphs=[nx.Graph(), nx.DiGraph()], edge_types=["undirected", "directed"])
+    elif case["cls"] == "mixed_du":
+        M = pywhy_nx.MixedEdgeGraph(graphs=[nx.DiGraph(), nx.Graph()], edge_types=["directed", "undirected"])
+    else:   # "readd": a CPDAG whose directed layer was removed and added again through the public API
+        from pywhy_graphs import CPDAG
+        M = CPDAG()
+        M.remove_edge_type("directed")
+        M.add_edge_type(nx.DiGraph(), "directed")
+    for v in gr.ordered(case, g["V"], "V"):
+        M.add_node(lab(v))
+    es = [("directed", a, b) for a, b in g["D"]] + [("undirected", a, b) for a, b in g["U"]]
+    for name, a, b in gr.ordered(case, es, "E"):
+        M.add_edge(lab(a), lab(b), name)
+    return M, lab, inv
+
+
+def graph_of(case):
+    if "ts" in case:
+        return c04.ts_abstract(ts_cpdag(case))[0]
+    return case["g"]
 
 
 def shaped_pdag(rng, n):
@@ -196,6 +250,29 @@ def gen_cases(tier, rng):
         dense = [g for g in d5 if len(g["D"]) >= 9]
         for g in dense + rng.sample(d5, 700):
             yield {"kind": "cons5-sample", "mode": "cons", "g": g}
+    # OTHER INPUT CLASSES the API accepts: stationary time-series CPDAGs / mixed-edge graphs (layer classes whose add_edge adds
+    # homologous edges), plain MixedEdgeGraphs with the layers in either order, a CPDAG whose directed layer was re-added
+    for i in range(250 if tier == "quick" else 1200):
+        c = {"kind": "ts", "mode": "pdag", "g": gr.G([0]), "ts": c04.ts_template(rng, undirected=True), "orc": 8,
+             "cls": ["tscpdag", "tscpdag", "tsmixed", "tsmixed_du"][i % 4]}
+        if i % 5 == 0:
+            c["repeat"] = True
+        if i % 3 == 0:
+            c["_order"] = rng.randint(3, 10 ** 6)
+        yield c
+    i = 0
+    for n in (2, 3):
+        for g in gr.enum_pdag(n, acyclic=False):
+            i += 1
+            yield {"kind": "cls%d" % n, "mode": "pdag", "g": g, "cls": ["mixed_ud", "mixed_du", "readd"][i % 3]}
+    for i in range(150 if tier == "quick" else 700):
+        c = {"kind": "shaped-cls", "mode": "pdag", "g": shaped_pdag(rng, rng.randint(5, 6)),
+             "cls": ["mixed_ud", "readd", "mixed_du"][i % 3]}
+        if i % 4 == 0:
+            c["_lab"] = rng.choice(c04.LAB_FAMILIES)
+        if i % 5 == 0:
+            c["attrs"] = rng.randint(0, 10 ** 6)
+        yield c
     # identity-hashed / other label families (pdag_to_dag copies the graph: a deep copy of the labels would change the nodes)
     i = 0
     for n in (2, 3):
@@ -239,14 +316,14 @@ def gen_cases(tier, rng):
 
 
 def oracle_on(case):
-    return len(case["g"]["U"]) <= case.get("orc", 12)
+    return len(graph_of(case)["U"]) <= case.get("orc", 12)
 
 
 def encode(case):
     if case.get("deep"):
         return [5, gr.enc(case["g"])]
     if case["mode"] == "pdag":
-        return [0 if oracle_on(case) else 1, gr.enc(case["g"])]
+        return [0 if oracle_on(case) else 1, gr.enc(graph_of(case))]
     return [4, gr.enc(case["g"]), c04.topo_order(case)]
 
 
@@ -267,7 +344,13 @@ def run_impl(case):
     g = case["g"]
     sink = io.StringIO()
     if case["mode"] == "pdag":
-        P, lab, inv = to_cpdag_mixed(g, case) if case.get("mixed") else gr.to_cpdag(g, case)
+        if "ts" in case:
+            P = ts_cpdag(case)
+            g, lab, inv = c04.ts_abstract(P)
+        elif case.get("cls"):
+            P, lab, inv = mixed_pdag(g, case)
+        else:
+            P, lab, inv = to_cpdag_mixed(g, case) if case.get("mixed") else gr.to_cpdag(g, case)
         if case.get("attrs") is not None:      # pre-existing edge attributes named like dag_to_cpdag's own
             for lg in P.get_graphs().values():
                 c04.decorate(lg, case["attrs"])
@@ -329,7 +412,7 @@ def compare(case, impl, model):
         if impl["raises"] != model["raises"]:
             return "raises-although-extension-exists" if impl["raises"] else "returns-although-no-extension"
         if not impl["raises"]:
-            if impl["nodes"] != sorted(case["g"]["V"]):
+            if impl["nodes"] != sorted(graph_of(case)["V"]):
                 return "nodes"
             if impl["valid"] != 1:
                 return "invalid-extension"
@@ -348,11 +431,12 @@ def compare(case, impl, model):
 
 
 def nontrivial(case, model):
-    return bool(case["g"]["U"] and case["g"]["D"]) if case["mode"] == "pdag" else len(case["g"]["D"]) >= 2
+    g = graph_of(case)
+    return bool(g["U"] and g["D"]) if case["mode"] == "pdag" else len(g["D"]) >= 2
 
 
 def key(case):
-    return (case["mode"], gr.canon(case["g"]), bool(case.get("repeat")), case.get("attrs"), bool(case.get("mixed")),
+    return (case["mode"], gr.canon(graph_of(case)), case.get("cls"), bool(case.get("repeat")), case.get("attrs"), bool(case.get("mixed")),
             case.get("_lab"),
             bool(case.get("copy")),
             tuple(map(tuple, case.get("drop", []))), tuple(map(tuple, case.get("extra", []))))
@@ -363,6 +447,9 @@ def classify(case, impl, model):
 
 
 def shrink(case):
+    if "ts" in case:
+        yield from c04.shrink(case)
+        return
     if "drop" in case:
         yield from c04.shrink(case)
         return
